@@ -10,10 +10,10 @@ import (
 
 // DFA is a complete deterministic automaton over an Alphabet's classes.
 type DFA struct {
-	A      *Alphabet
-	T      [][]int32 // T[state][class]
-	Acc    []bool
-	Start  int
+	A     *Alphabet
+	T     [][]int32 // T[state][class]
+	Acc   []bool
+	Start int
 }
 
 func (d *DFA) N() int { return len(d.T) }
